@@ -33,7 +33,7 @@ VIOL_PER_KEY = 3
 
 
 def h64(obj):
-    return hashlib.blake2b(repr(obj).encode(), digest_size=8).hexdigest()
+    return int.from_bytes(hashlib.blake2b(repr(obj).encode(), digest_size=8).digest(), 'little')
 
 
 def jsonable(o):
@@ -138,7 +138,7 @@ class Recorder(object):
 
     def dump(self):
         return {
-            'shard': self.shard, 'evals': self.evals, 'nontrivial': sorted(self.nontrivial),
+            'shard': self.shard, 'evals': self.evals,
             'classes': dict(self.classes), 'events': dict(self.events), 'anchors': dict(self.anchors),
             'viol': self.viol, 'undec': dict(self.undec), 'undec_items': self.undec_items,
             'samples': self.samples, 'maxima': {k: list(v) for k, v in self.maxima.items()},
@@ -202,9 +202,15 @@ def _run_one(prop, shard, timeout):
     if os.path.exists(outpath):
         try:
             res = json.load(open(outpath))
+            import array
+            nt = array.array('Q')
+            if os.path.exists(outpath + '.nt'):
+                with open(outpath + '.nt', 'rb') as f:
+                    nt.frombytes(f.read())
+            res['nontrivial'] = nt
         except Exception:
             res = None
-    for pth in (inpath, outpath):
+    for pth in (inpath, outpath, outpath + '.nt'):
         try:
             os.unlink(pth)
         except OSError:
@@ -215,7 +221,7 @@ def _run_one(prop, shard, timeout):
 
 
 def aggregate(results):
-    agg = {'evals': 0, 'nontrivial': set(), 'classes': collections.Counter(), 'events': collections.Counter(),
+    agg = {'evals': 0, 'nontrivial': 0, 'nt_arrays': [], 'classes': collections.Counter(), 'events': collections.Counter(),
            'anchors': collections.Counter(), 'viol': {}, 'undec': collections.Counter(), 'undec_items': [],
            'samples': [], 'maxima': {}, 'notes': {}, 'shards_ok': 0, 'shards_watchdog': 0, 'shards_crash': 0,
            'crash_msgs': []}
@@ -233,7 +239,7 @@ def aggregate(results):
         if not res:
             continue
         agg['evals'] += res['evals']
-        agg['nontrivial'].update(res['nontrivial'])
+        agg['nt_arrays'].append(res['nontrivial'])
         agg['classes'].update(res['classes'])
         agg['events'].update(res['events'])
         agg['anchors'].update(res['anchors'])
@@ -260,6 +266,14 @@ def aggregate(results):
         for k, v in res['notes'].items():
             lst = agg['notes'].setdefault(k, [])
             lst.extend(v[: max(0, 20 - len(lst))])
+    # distinct non-trivial cases across shards: streaming merge of the sorted per-shard hash arrays
+    import heapq
+    last, n = None, 0
+    for h in heapq.merge(*agg.pop('nt_arrays')):
+        if h != last:
+            n += 1
+            last = h
+    agg['nontrivial'] = n
     return agg
 
 
@@ -339,7 +353,7 @@ def run_check(prop, tier='quick', seed=0, replay=None, out=sys.stdout):
     status = 1 if new_viol else (2 if inconclusive else 0)
     print('%s tier=%s seed=%d: %s; evaluations=%d distinct_nontrivial=%d undecided=%d known_findings=%d new_violations=%d wall=%.1fs'
           % (prop, tier, seed, {0: 'HELD on everything explored', 1: 'VIOLATED', 2: 'INCONCLUSIVE'}[status],
-             agg['evals'], len(agg['nontrivial']), sum(agg['undec'].values()), len(known_hit), len(new_viol), wall), file=out)
+             agg['evals'], agg['nontrivial'], sum(agg['undec'].values()), len(known_hit), len(new_viol), wall), file=out)
     for r in inconclusive:
         print('INCONCLUSIVE: ' + r, file=out)
     out.flush()
@@ -350,7 +364,7 @@ def write_evidence(mod, prop, tier, seed, agg, known_hit, new_viol, inconclusive
     os.makedirs(EVIDENCE_DIR, exist_ok=True)
     cov = {
         'evaluations': agg['evals'],
-        'distinct_nontrivial': len(agg['nontrivial']),
+        'distinct_nontrivial': agg['nontrivial'],
         'rule': getattr(mod, 'RULE', ''),
         'samples': agg['samples'] or [],
         'classes': dict(sorted(agg['classes'].items())),
